@@ -337,6 +337,9 @@ class AbstractExcelInPython(ABC):
         if not isinstance(range_lookup, (bool, int)):
             return '#ERROR!'
 
+        # номер столбца - целое число, даже если получен делением (2.0 -> 2)
+        col_index_num = int(col_index_num) if isinstance(col_index_num, float) else col_index_num
+
         lookup_value_type = int if isinstance(lookup_value, self.EmptyCell) else type(lookup_value)
         last_valid_value = '#N/A'
         
